@@ -36,7 +36,10 @@ Cell.schedule() takes its before-snapshot before and its after-snapshot after
 every routine that may change a placement, the duplicate repair of
 restore_placements treats every server of a duplicated instance alike, no
 record delete is reachable after a record write of one publication, and
-restore_placement reports every instance it put back.
+restore_placement reports every instance it put back. Fourth round: C01.3 the
+one place outside Server.remove that clears app.server does so only for a
+server missing from the cell's map; C01.9 also covers the reload of a replaced
+server (shared with C09.4).
 Does NOT decide the arithmetic identity free = capacity - sum(demand) over
 histories nor value-level behaviour of the unit parsers.
 """
